@@ -117,7 +117,7 @@ pub fn run(em: &mut Emitter, rng: &mut Rng, thorough: bool) {
 
 // ---------------- C07 Level A: raw operation scripts, request counts ----------------
 #[derive(Clone, Debug)]
-enum Aop { TakeU8, TakeOpt, Skip(usize), TakeAll, SkipAll, SetLim(Option<usize>), Request(usize), Tag, Exhausted, TagIf(u8, u32) }
+enum Aop { TakeU8, TakeOpt, Skip(usize), TakeAll, SkipAll, SetLim(Option<usize>), Request(usize), Tag, Exhausted, TagIf(u8, u32), Look(usize) }
 
 fn enc_aops(ops: &[Aop]) -> Vec<i128> {
     let mut v = Vec::new();
@@ -126,6 +126,7 @@ fn enc_aops(ops: &[Aop]) -> Vec<i128> {
         Aop::TakeAll => v.push(3), Aop::SkipAll => v.push(4), Aop::SetLim(Some(n)) => { v.push(5); v.push(*n as i128) }
         Aop::SetLim(None) => v.push(6), Aop::Request(n) => { v.push(7); v.push(*n as i128) } Aop::Tag => v.push(8), Aop::Exhausted => v.push(9),
         Aop::TagIf(c, n) => { let t = crate::c12::mk_tag(*c, *n); let mut buf = Vec::new(); t.write_encoded(false, &mut buf).unwrap(); buf.resize(4, 0); v.push(10); for b in buf { v.push(b as i128); } }
+        Aop::Look(n) => { v.push(11); v.push(*n as i128) }
     } }
     v
 }
@@ -142,6 +143,8 @@ fn run_aops<S: Source>(ops: &[Aop], src: &mut bcder::decode::LimitedSource<S>) -
             Aop::SkipAll => src.skip_all().map(|_| vec![0]).map_err(|e| is_source_err(&e)),
             Aop::SetLim(l) => { src.set_limit(*l); Ok(vec![]) }
             Aop::Request(n) => src.request(*n).map(|g| vec![g as i128]).map_err(|_| true),
+            // request(n), then the first n octets slice() shows (the access of Integer::check_head)
+            Aop::Look(n) => src.request(*n).map(|_| { let sl = src.slice(); let k = (*n).min(sl.len()); let mut v = vec![k as i128]; v.extend(sl[..k].iter().map(|x| *x as i128)); v }).map_err(|_| true),
             Aop::Exhausted => src.exhausted().map(|_| vec![0]).map_err(|e| is_source_err(&e)),
             Aop::TagIf(c, n) => crate::c12::mk_tag(*c, *n).take_from_if(src).map(|o| match o { Some(k) => vec![1, k as i128], None => vec![0] }).map_err(|e| is_source_err(&e)),
             Aop::Tag => Tag::take_opt_from(src).map(|o| match o {
@@ -163,8 +166,9 @@ pub fn run_grants(em: &mut Emitter, rng: &mut Rng, thorough: bool) {
         let mut ops = Vec::new();
         if rng.chance(3, 4) { ops.push(Aop::SetLim(Some(rng.below(n as u64 + 3) as usize))); }
         for _ in 0..nops {
-            ops.push(match rng.below(13) {
+            ops.push(match rng.below(14) {
                 10 => Aop::Exhausted,
+                13 => Aop::Look(rng.below(n as u64 + 3) as usize),
                 // a conditional tag read: often for the tag that is there (taken from the data), else random
                 11 | 12 => { match (rng.bool(), crate::c12::ref_parse(&data)) { (true, Some((cls, _, num, _))) => Aop::TagIf(cls, num), _ => { let (c, n) = random_tag(rng); Aop::TagIf(c, n) } } }
                 0 => Aop::TakeU8, 1 => Aop::TakeOpt, 2 => Aop::Skip(rng.below(5) as usize),
